@@ -6,6 +6,11 @@ W=/tmp/seed/$ID; O=/tmp/seed/out/$ID
 D=/verif/seeded/$ID-$X
 cd "$W" || exit 2
 git checkout -q -- . && git checkout -q --detach "$(git -C /repo rev-parse HEAD)" || exit 2
+SHA=$(git -C /repo rev-parse --short HEAD)
+if [ ! -f /tmp/seed/clean_$SHA.txt ]; then
+  PYTHONPATH="$W" /venv/bin/python -m pytest -q -p no:cacheprovider --timeout=900 --continue-on-collection-errors tests 2>&1 | tail -1 | grep -o '[0-9]* passed' | grep -o '[0-9]*' > /tmp/seed/clean_$SHA.txt
+fi
+CLEAN=$(cat /tmp/seed/clean_$SHA.txt)
 run_demo() { PYTHONPATH="$W" /venv/bin/python -W ignore "$O/$X.demo.py" >/tmp/seed/out/$ID/$X.demo.$1.log 2>&1; echo $?; }
 clean_rc=$(run_demo clean)
 git apply "$O/$X.patch.diff" || { echo "$ID-$X: PATCH DOES NOT APPLY at current HEAD"; exit 3; }
@@ -15,14 +20,15 @@ summary=$(tail -1 /tmp/seed/out/$ID/$X.tests.log)
 passed=$(echo "$summary" | grep -o '[0-9]* passed' | grep -o '[0-9]*')
 git checkout -q -- .
 echo "$ID-$X: demo clean rc=$clean_rc mutated rc=$mut_rc ; tests: $summary"
-if [ "$clean_rc" = 0 ] && [ "$mut_rc" != 0 ] && [ "$passed" = 228 ]; then
+echo "   (clean tree at $SHA: $CLEAN passed)"
+if [ "$clean_rc" = 0 ] && [ "$mut_rc" != 0 ] && [ "$passed" = "$CLEAN" ] && [ "$passed" -ge 228 ]; then
   mkdir -p "$D"
   cp "$O/$X.patch.diff" "$D/patch.diff"; cp "$O/$X.demo.py" "$D/demo.py"
   /venv/bin/python - "$O/$X.meta.json" "$D/meta.json" "$summary" "$(git -C /repo rev-parse --short HEAD)" <<'EOF'
 import json,sys
 m=json.load(open(sys.argv[1]))
 m["confirmed_by_main_session"]={"at_repo_commit":sys.argv[4],"demo_on_clean_tree":"exit 0","demo_with_change":"exit 1 (non-zero)","existing_suite_with_change":sys.argv[3],
-  "procedure":"tools/seed_confirm.sh: scratch worktree at /repo HEAD; demo passes; git apply patch; demo fails; full pytest suite still 228 passed; worktree reset"}
+  "procedure":"tools/seed_confirm.sh: scratch worktree at /repo HEAD; demo passes; git apply patch; demo fails; full pytest suite passes exactly the tests it passes without the change (>= the 228 baseline tests); worktree reset"}
 json.dump(m,open(sys.argv[2],"w"),indent=1)
 EOF
   echo "$ID-$X: CONFIRMED -> $D"
